@@ -3,7 +3,7 @@ Shared by C01, C03, C04, C07, C14, C16."""
 import collections
 import json
 from harness import gen_graph, gen_proc, gen_cc, gen_cons, tlc
-from harness.runner import pmap
+from harness.runner import first_per_clause, pmap
 
 CAP_QUICK = 300
 CAP_THOROUGH = 1500
@@ -82,8 +82,8 @@ def summarise(traces, mon):
         if fails:
             for c in {f[0] for f in fails}:
                 out['clause_counts'][c] += 1
-            out['fails'].append({'tid': t['tid'], 'fails': fails[:40], 'g': t['g'],
-                                 'trace': slim(t, around=[f[1]-1 for f in fails[:6]])})
+            out['fails'].append({'tid': t['tid'], 'fails': first_per_clause(fails), 'g': t['g'],
+                                 'trace': slim(t, around=[f[1]-1 for f in first_per_clause(fails)][:12])})
     for t in traces[:1] + traces[len(traces)//2:len(traces)//2+1]:
         out['samples'].append({'g': {k: t['g'][k] for k in ('n', 'start', 'der', 'ch', 'inc', 'cons', 'cc')},
                                'events': [{k: e.get(k) for k in ('e', 'enc', 'x', 'create', 'rx', 'ract', 'err') if k in e}
